@@ -76,6 +76,7 @@ pub fn run_history_with(h: &History, giant_limit: usize, stop_prop: Option<&str>
     let mut fatal = false;
     let mut steps_run = 0;
     for (i, op) in h.ops.iter().enumerate() {
+        w.intrude = h.plan.intrude.filter(|x| x.step as usize == i);
         let res = w.step(op, &mut ctx);
         steps_run = i + 1;
         for f in res.failures {
